@@ -373,3 +373,32 @@ Definition chk_C09 (c : chain_case) (o : op) (ok : bool) (prev cur : val) : list
   end.
 Definition mon_C09 := mon_steps chk_C09.
 Definition mon_everything (c : chain_case) (obs : val) : list Z := (mon_all c obs ++ mon_C09 c obs ++ mon_C12 c obs)%list.
+
+(* C13: a swap executed right after its quote was accepted only if the quoted return and spread pass the documented
+   tolerance test for the limits it carried; a route only if its quote reaches the minimum it asked for *)
+Definition chk_C13 (c : chain_case) (last : option (query * val)) (o : op) (ok : bool) (prev cur reported : val) : list Z :=
+  if negb ok then [] else
+  match o, last with
+  | Tx _ target (WPm (PmSwap ask bp ms _ pid)) [offer], Some (QSimulation qoffer qask qpid, ans) =>
+      if String.eqb target PM && String.eqb ask qask && String.eqb pid qpid && String.eqb (denom_of offer) (denom_of qoffer) &&
+         (amount_of offer =? amount_of qoffer) then
+        match vlist ans with
+        | [VZ 1; VL (VZ ret :: VZ slip :: _)] =>
+            match assert_max_slippage bp ms (amount_of offer) ret slip with Ok _ => [] | Err _ => [13] end
+        | _ => [13]
+        end
+      else []
+  | Tx _ target (WPm (PmRoute ops mr _ _)) [offer], Some (QSimulateOps amount qops, ans) =>
+      if String.eqb target PM && (amount_of offer =? amount) &&
+         val_eqb (VL (map (fun x => VL [VS (so_in x); VS (so_out x); VS (so_pool x)]) ops))
+                 (VL (map (fun x => VL [VS (so_in x); VS (so_out x); VS (so_pool x)]) qops)) &&
+         (Nat.eqb (List.length (nodup string_dec (map so_pool ops))) (List.length ops)) then
+        match quoted_ok ans, mr with
+        | Some q, Some m => if m <=? q then [] else [13]
+        | Some _, None => []
+        | None, _ => [13]
+        end
+      else []
+  | _, _ => []
+  end.
+Definition mon_C13 := mon_steps_q chk_C13.
